@@ -347,8 +347,19 @@ def post_normal(ms, schema):
 def run_one(ms, text):
     """-> (outcome, detail): 'schema' | 'schema_error' | 'escaped' | 'bad_line' | 'unsound'"""
     nlines = text.count('\n') + 1
+    import signal
+
+    def _hang(sig, frm):
+        raise TimeoutError('parse_string did not return within 10 s')
+    signal.signal(signal.SIGALRM, _hang)
+    signal.alarm(10)
     try:
-        schema = ms.parse_string(text)
+        try:
+            schema = ms.parse_string(text)
+            for el in schema.elements.values():        # what every generator does next with an accepted schema
+                schema.expanded_attrs(el)
+        finally:
+            signal.alarm(0)
     except ms.SchemaError as e:
         if not (isinstance(e.line, int) and 1 <= e.line <= nlines):
             return 'bad_line', 'SchemaError line %r outside 1..%d' % (e.line, nlines)
@@ -368,6 +379,11 @@ TOKENS = ['enum', 'group', 'element', 'use', 'child', 'set', 'variant', 'exclusi
 
 def main():
     chk = Check('C41', level='exploration')
+    import resource
+    try:
+        resource.setrlimit(resource.RLIMIT_AS, (6 << 30, 6 << 30))      # a runaway parse must fail here, not take the machine down
+    except Exception:       # noqa
+        pass
     path = os.path.join(REPO, REL)
     src = open(path).read()
     chk.sources[REL] = hashlib.sha256(src.encode()).hexdigest()
@@ -447,6 +463,23 @@ def main():
                 pass
             except BaseException as e:      # noqa
                 fail('arity literal: escaped', text, type(e).__name__)
+    # use cycles of every small shape, reached through a tail of groups declared before, between or after the cycle
+    for tail in range(0, 4):
+        for clen in range(1, 4):
+            for order in range(3):
+                names = ['t%d' % k for k in range(tail)] + ['c%d' % k for k in range(clen)]
+                decl = {}
+                for k in range(tail):
+                    decl['t%d' % k] = 't%d' % (k + 1) if k + 1 < tail else 'c0'
+                for k in range(clen):
+                    decl['c%d' % k] = 'c%d' % ((k + 1) % clen)
+                seq = list(names) if order == 0 else (list(reversed(names)) if order == 1 else rnd.sample(names, len(names)))
+                text = ''.join('group %s { x%s: int\n use %s }\n' % (n_, n_, decl[n_]) for n_ in seq) + 'element e { use %s }\n' % names[0]
+                out, detail = run_one(ms, text)
+                counts['mutants'] += 1
+                distinct.add(hashlib.sha256(text.encode()).hexdigest())
+                if out != 'schema_error':
+                    fail('use cycle (tail %d, length %d, declaration order %d) not rejected: %s' % (tail, clen, order, out), text, detail)
     for i in range(n_valid * 3):
         text = ' '.join(rnd.choice(TOKENS) for _ in range(rnd.randint(1, 25)))
         if rnd.random() < 0.5:      # splice random tokens into a valid schema
